@@ -283,8 +283,16 @@ class World(BaseWorld):
         self.rnd.load(op["shuffles"])
         try:
             if op.get("interrupt_at"):
-                with LineTracer(lib_prefix(), "interrupt", op["interrupt_at"]):
-                    sentence = next(t["gen"])
+                tracer = LineTracer(lib_prefix(), "interrupt", op["interrupt_at"])
+                try:
+                    with tracer:
+                        sentence = next(t["gen"])
+                except (StopIteration, Interrupt):
+                    raise
+                except Exception:
+                    if tracer.fired:
+                        raise Interrupt("converted")
+                    raise
                 self.note("F5_missed")
             else:
                 with LineTracer(lib_prefix(), "budget", 400000):
